@@ -17,6 +17,9 @@ EVIDENCE_DIR = os.path.join(VERIF, "evidence")
 REPLAY_DIR = os.path.join(VERIF, "replays")
 KNOWN_FILE = os.path.join(VERIF, "KNOWN_FINDINGS.txt")
 MAX_RECORDED = 12          # violations written out per shard (all are counted)
+# C16/C17/C20 re-run other properties' shards on other builds: they set these two before calling the shard function
+BUILD_OVERRIDE = None
+PID_OVERRIDE = None
 DET_EVERY = 64             # 1 program in DET_EVERY is executed twice and must give identical observations
 
 
@@ -98,9 +101,11 @@ class Checker:
     """Runs programs on one build and compares every step with the expected observation."""
 
     def __init__(self, pid, build="rel", classify=None, known_ids=()):
-        self.pid = pid
-        self.build = build
+        self.pid = PID_OVERRIDE or pid
+        self.build = BUILD_OVERRIDE or build
+        build = self.build
         self.ex = execpool.get(build)
+        self.transcript = hashlib.blake2b(digest_size=16)
         self.stats = Stats()
         self.classify = classify
         self.known_ids = set(known_ids)
@@ -122,6 +127,10 @@ class Checker:
                 if again[j] != obs[i]:
                     raise MachineryError("nondeterministic executor output for program %s" % progs[i][:300])
         for (ops, exp, meta), p, o in zip(cases, progs, obs):
+            self.transcript.update(p.encode())
+            self.transcript.update(b"\x00")
+            self.transcript.update(";".join(o).encode())
+            self.transcript.update(b"\x01")
             st.evaluations += 1
             st.transitions += len(ops)
             if count_trace:
